@@ -2,6 +2,7 @@
 //! written to simulated durable storage, crashes and restarts. One `Schedule` is one exactly
 //! repeatable fault history.
 
+use crate::outln;
 use std::path::PathBuf;
 
 use serde::{Deserialize, Serialize};
@@ -520,14 +521,14 @@ pub fn segment_child_main(args: &[String]) -> i32 {
     let b = match std::fs::read(&args[0]) {
         Ok(b) => b,
         Err(e) => {
-            println!("read: {e}");
+            outln!("read: {e}");
             return 3;
         }
     };
     let si: SegIn = match bincode::serde::decode_from_slice(&b, bincode::config::standard()) {
         Ok((si, _)) => si,
         Err(e) => {
-            println!("decode: {e}");
+            outln!("decode: {e}");
             return 3;
         }
     };
@@ -540,7 +541,7 @@ pub fn segment_child_main(args: &[String]) -> i32 {
             0
         }
         Err((loc, msg)) => {
-            println!("segment panicked outside a line at {loc}: {msg}");
+            outln!("segment panicked outside a line at {loc}: {msg}");
             3
         }
     }
